@@ -159,6 +159,18 @@ theorem C01_pattern_merge_sound {α : Type} (sat : α → Char → Bool) (v : Rx
         SearchAnchored sat middle s ∧ lo.getD 0 ≤ s.length ∧ ∀ h, hi = some h → s.length ≤ h :=
   updateQuantifier_sound v first last middle lo hi out hb he hs hwf hbare hv hhi hq
 
+/-- **C01_pattern_merge_keeps_some** (the "not reported as impossible" direction): under the same hypotheses, and
+    atoms that each admit some character, the re-rendered pattern is matched by at least one string — merging the
+    length keywords into the pattern never produces an unsatisfiable pattern. -/
+theorem C01_pattern_merge_keeps_some {α : Type} (sat : α → Char → Bool) (hinh : ∀ a, ∃ c, sat a c = true) (v : RxV)
+    (first last : Item α) (middle : List (Item α)) (lo hi : Option Nat) (out : List (Item α))
+    (hb : isBegin first = true) (he : isEnd last = true) (hs : simpleMiddle middle = true)
+    (hwf : wfBounds (repBounds middle)) (hbare : ∀ a, middle ≠ [.lit a])
+    (hv : v.zeroMax = .repaired ∨ ∀ h, hi = some h → h ≠ countLits middle) (hhi : ∀ h, hi = some h → h < MAXREPEAT)
+    (hq : updateQuantifier v (first :: middle ++ [last]) lo hi = .ok out true) :
+    ∃ middle' s, out = first :: middle' ++ [last] ∧ SearchAnchored sat middle' s :=
+  updateQuantifier_keeps hinh v first last middle lo hi out hb he hs hwf hbare hv hhi hq
+
 /-- non-vacuity of `C01_pattern_merge_sound`: `^[a-z]+$` with `maxLength 3` is re-rendered as `^([a-z]){1,3}$`, and
     `^a[0-9]{1,4}-[a-z]*$` with `minLength = maxLength = 5` gets the distribution `{1}` / `{2}` -/
 example :
